@@ -321,3 +321,31 @@ Theorem C07_f128_from_bytes_with_padding_long : forall bs, (16 <= length bs)%nat
   f128_from_bytes_with_padding bs = FbAssertLen.
 Proof. exact FieldBytesSpec.f128_from_bytes_with_padding_long. Qed.
 Print Assumptions C07_f128_from_bytes_with_padding_long.
+
+(* ---- coverage round: conversions, conjugate, compound assignments, base_element, raw byte view (f128) ---- *)
+From VProofs Require FieldConvSpec.
+
+Theorem C07_f128_from_uN : forall x, 0 <= x < 2^64 ->
+  f128_from_u8 x = x /\ f128_from_u16 x = x /\ f128_from_u32 x = x /\ f128_from_u64 x = x /\
+  repr128 x /\ x mod M = x.
+Proof. exact FieldConvSpec.C128.f128_from_uN_spec. Qed.
+Print Assumptions C07_f128_from_uN.
+
+Theorem C07_f128_conjugate : forall e, f128_conjugate e = e.
+Proof. exact FieldConvSpec.C128.f128_conjugate_spec. Qed.
+Print Assumptions C07_f128_conjugate.
+
+Theorem C07_f128_assign : forall fuel a b,
+  f128_add_assign a b = f128_add a b /\ f128_sub_assign a b = f128_sub a b /\
+  f128_mul_assign a b = f128_mul a b /\ f128_div_assign fuel a b = f128_div fuel a b.
+Proof. exact FieldConvSpec.C128.f128_assign_spec. Qed.
+Print Assumptions C07_f128_assign.
+
+Theorem C07_f128_base_element : forall e i, f128_base_element e i = if i =? 0 then Some e else None.
+Proof. exact FieldConvSpec.C128.f128_base_element_spec. Qed.
+Print Assumptions C07_f128_base_element.
+
+Theorem C07_f128_as_bytes_same_residue : forall a b, repr128 a -> repr128 b ->
+  (f128_as_bytes a = f128_as_bytes b <-> a = b).
+Proof. exact FieldConvSpec.C128.f128_as_bytes_same_residue. Qed.
+Print Assumptions C07_f128_as_bytes_same_residue.
